@@ -1,26 +1,46 @@
 /-
   C12 — homomorphic linear transformations compute the plaintext matrix–vector product.
 
-  Scope of the theorems: the ALGORITHMS of `circuits/common/lintrans` as modelled in
-  `Lattigo.Model.LinTrans` over a slot carrier (`SlotOps`): which encoded diagonal is multiplied
-  with which rotation, the encoding-time pre-rotation, the accumulation, the Galois keys requested
-  and advertised, the output level/scale rule.  Of the ciphertext layer underneath, the lazy
-  accumulation SCHEDULE (`Lattigo.Model.LinTrans.Lazy`: counters, margins, reduce points, ModDown
-  points, one accumulator word) is modelled and `lazy_accumulation_no_wrap` proved; the polynomials
-  themselves (hoisted key switching, automorphisms, ModDown) are not: they are exercised on the real
-  code by the harness (decrypted result = `M·v` exactly mod t / within 2^-8 for ckks, also on 60/61-bit
-  primes with more than two windows of baby steps) and belong to C04/C11.  The schedule has no
-  observable counterpart (`ring.Reduce` cannot be intercepted through the public API); the only tie is
-  `margin` (`QiOverflowMargin`/`PiOverflowMargin`).
+  STATUS (what each clause of the property text rests on).
 
-  The model follows the code with the fixes C12-1 (EvaluateMany recomputes the hoisted decomposition
-  for every transformation), C12-2 (the naive algorithm without any off-main diagonal; the zero
-  matrix) and C12-3 (`Diagonals.At` for negative indices) applied; the former counterexample theorems
-  are now the positive `evaluateMany_spec`, `naive_spec` (no restriction), `at_spec`.
+  Proved for ALL inputs — the ALGORITHMS of `circuits/common/lintrans` (`Lattigo.Model.LinTrans`) over a slot
+  carrier (`SlotOps`; execution instance `fnOps n`: `rows × n` integer slots, rows rotating independently):
+    `diag_method`, `rows_independent`          Σ_d diag_d ⊙ rot_d v IS the matrix–vector product, per row
+    `naive_spec`, `bsgs_regroup`, `bsgs_eq_naive`   both algorithms return it: every set of normalised
+                                               indices, every baby-step size, main diagonal alone, zero matrix
+    `lintrans_spec_allocated`                  end to end, from the index-set hypotheses alone (indices in
+                                               (−n, n), distinct mod n, positive or negative spelling), for EVERY
+                                               ratio: NewLinearTransformation + Encode (incl. `Diagonals.At`) +
+                                               Evaluate = M·v on the allocated keys (`lintrans_naive_spec`,
+                                               `lintrans_bsgs_spec(_allocated)`)
+    `evaluateMany_spec`, `evaluateSequential_spec`   many-on-one-input; sequential = composition, any length
+    `meta_spec`, `evaluateSequential_meta(_too_few)`  output level/scale; closed form along a sequence (bgv,
+                                               scales in ZMod t), error with more steps than levels
+    `lintrans_keys_sufficient`                 advertised Galois elements ⊇ requested, any indices, any ratio
+    `at_spec`                                  `Diagonals.At` on negative indices
+  Proved for ALL inputs — of the ciphertext layer, the lazy-accumulation SCHEDULE (`Model.LinTrans.Lazy`):
+    `lazy_accumulation_no_wrap(_general)`, `lazy_accumulation_no_wrap_gen` (margin = the REGENERATED
+    `QiOverflowMargin`, `C12Gen.overflowMargin_gen` / `C19Gen.margin_floor_gen`), `mredlazy_reduced_bound`,
+    `lazy_2q_bound_insufficient` (the documented `< 2q` bound alone does not suffice),
+    `modDown_once_per_giant_step`, `no_P_no_reduce`, `naive_final_reduce_redundant`.
+  Regenerated from the source and proved equal to the model (`C12Gen`): the margins, the index arithmetic of
+  `BSGSIndex` for one diagonal.  `FindBestBSGSRatio` (float ratios) is hand-modelled; `findBestBSGSRatio_pos`.
+  Tied only: `bsgsindex`, `bestratio`, `galels`, `alloc`, `at`, `permdiags` (`Permutation.GetDiagonals` has no
+  theorem), the `eval` lines (keys requested in order, advertised, level, scale, decrypted values).
+  Probed only: decrypted result = M·v (bgv exact, ckks 2^-8) incl. 60/61-bit primes with several windows of
+  baby steps, keys from the package-level `GaloisElements` only (`keys_sufficient_pkg`).
+  Not covered: the polynomials under the schedule (hoisted gadget products, automorphisms, ModDown: C04/C11;
+  the schedule's reduce points have no observable counterpart — `ring.Reduce` cannot be intercepted), ckks
+  precision as a theorem, `Permutation` → diagonals correctness.
+
+  The model follows the code with the fixes C12-1 (EvaluateMany recomputes the hoisted decomposition), C12-2
+  (naive algorithm without off-main diagonal; the zero matrix), C12-3 (`Diagonals.At`, negative indices) applied.
 -/
 import Lattigo.Proofs.LinTransAt
 import Lattigo.Proofs.LinTransLazy
+import Lattigo.Proofs.LinTransSeq
 import Lattigo.Props.C12Gen
+import Mathlib.Tactic.NormNum.Prime
 
 namespace Lattigo.Props.C12
 open Lattigo.Model.LinTrans
@@ -130,6 +150,66 @@ example : (∀ d ∈ [((-3 : Int), (7 : Int)), (1, 8)], -((8 : Nat) : Int) < d.1
     diagAt [((-3 : Int), (7 : Int)), (1, 8)] 5 8 = some 7 ∧ diagAt [((-3 : Int), (7 : Int)), (1, 8)] 1 8 = some 8 := by
   decide
 
+/-- **end to end, naive** (`LogBabyStepGiantStepRatio < 0`) from the index-set hypotheses alone: `Encode`
+    succeeds and `MultiplyByDiagMatrix` on the result is the matrix–vector product -/
+theorem lintrans_naive_spec (n : Nat) (hn : 0 < n) (diagonals : List (Int × Slots n))
+    (hrange : ∀ d ∈ diagonals, -(n : Int) < d.1 ∧ d.1 < (n : Int))
+    (hdist : (diagonals.map fun d => d.1 % (n : Int)).Nodup)
+    (keys : List Int) (hknd : keys.Nodup) (hall : ∀ d ∈ diagonals, normIdx n d.1 ∈ keys)
+    (hkeys : ∀ k ∈ keys, ∃ d ∈ diagonals, k = normIdx n d.1) (v : Slots n) :
+    ∃ vec, encode (fnOps n) n 0 keys diagonals = some vec ∧
+      evalNaive (fnOps n) n vec v = .val (matVec n keys (diagOf n diagonals) v) := by
+  have hr : ∀ k ∈ keys, 0 ≤ k ∧ k < (n : Int) := by
+    intro k hk
+    obtain ⟨d, _, rfl⟩ := hkeys k hk
+    exact normIdx_range n hn d.1
+  refine ⟨_, encode_naive n diagonals hrange hdist keys hall hkeys, ?_⟩
+  rw [evalNaive_eq (fnOps_laws n) keys hr hknd (diagOf n diagonals) v, diagSum_fn]
+
+/-- **lintrans_spec_allocated**: for EVERY `LogBabyStepGiantStepRatio` (negative: naive; `≥ 0`: BSGS with
+    `N1 = FindBestBSGSRatio`), every diagonal map with indices in `(-n, n)` distinct modulo `n`:
+    `NewLinearTransformation` + `Encode` + `Evaluate` is the matrix–vector product with the user's
+    diagonals, on the keys the allocation chose — no hypothesis on `N1` or on the keys. -/
+theorem lintrans_spec_allocated (logCols : Nat) (logRatio : Int)
+    (diagonals : List (Int × Slots (2 ^ logCols)))
+    (hrange : ∀ d ∈ diagonals, -((2 ^ logCols : Nat) : Int) < d.1 ∧ d.1 < ((2 ^ logCols : Nat) : Int))
+    (hdist : (diagonals.map fun d => d.1 % ((2 ^ logCols : Nat) : Int)).Nodup) (v : Slots (2 ^ logCols)) :
+    ∃ vec, encode (fnOps (2 ^ logCols)) (2 ^ logCols) (allocate (diagonals.map (·.1)) (2 ^ logCols) logRatio).1
+        (allocate (diagonals.map (·.1)) (2 ^ logCols) logRatio).2 diagonals = some vec ∧
+      evalOne (fnOps (2 ^ logCols)) (⟨(allocate (diagonals.map (·.1)) (2 ^ logCols) logRatio).1,
+          logCols, 0, 1, vec⟩ : LinTrans.LT (Slots (2 ^ logCols))) v
+        = .val (matVec (2 ^ logCols) (allocate (diagonals.map (·.1)) (2 ^ logCols) logRatio).2
+            (diagOf (2 ^ logCols) diagonals) v) := by
+  have hn : 0 < 2 ^ logCols := Nat.two_pow_pos logCols
+  by_cases hl : logRatio < 0
+  · have hal : allocate (diagonals.map (·.1)) (2 ^ logCols) logRatio
+        = (0, sortU ((diagonals.map (·.1)).map fun i => if i < 0 then i + ((2 ^ logCols : Nat) : Int) else i)) := by
+      simp [allocate, hl]
+    have hkeq : ((diagonals.map (·.1)).map fun i => if i < 0 then i + ((2 ^ logCols : Nat) : Int) else i)
+        = diagonals.map fun d => normIdx (2 ^ logCols) d.1 := by
+      rw [List.map_map]
+      apply List.map_congr_left
+      intro d hd
+      exact naiveNorm_eq _ d.1 (hrange d hd).1 (hrange d hd).2
+    rw [hal, hkeq]
+    simp only
+    obtain ⟨vec, h1, h2⟩ := lintrans_naive_spec (2 ^ logCols) hn diagonals hrange hdist
+      (sortU (diagonals.map fun d => normIdx (2 ^ logCols) d.1)) (sortU_nodup _)
+      (fun d hd => (mem_sortU _ _).2 (List.mem_map.2 ⟨d, hd, rfl⟩))
+      (fun k hk => by
+        obtain ⟨d, hd, rfl⟩ := List.mem_map.1 ((mem_sortU _ _).1 hk)
+        exact ⟨d, hd, rfl⟩) v
+    exact ⟨vec, h1, by simpa [evalOne] using h2⟩
+  · obtain ⟨vec, h1, h2⟩ := lintrans_bsgs_spec_allocated (2 ^ logCols) hn logRatio hl diagonals hrange hdist v
+    have hN := Lattigo.Model.LinTrans.findBestBSGSRatio_pos (diagonals.map (·.1)) (2 ^ logCols) logRatio.toNat
+    have h0 : (allocate (diagonals.map (·.1)) (2 ^ logCols) logRatio).1 ≠ 0 := by
+      simp only [allocate, hl, if_false]; omega
+    exact ⟨vec, h1, by simpa [evalOne, h0] using h2⟩
+
+/-- non-vacuity: two diagonals, one spelled negatively, `n = 2^2`, naive and BSGS -/
+example : (∀ d ∈ [((-1 : Int), (7 : Int)), (2, 8)], -((2 ^ 2 : Nat) : Int) < d.1 ∧ d.1 < ((2 ^ 2 : Nat) : Int)) ∧
+    ([((-1 : Int), (7 : Int)), (2, 8)].map fun d => d.1 % ((2 ^ 2 : Nat) : Int)).Nodup := by decide
+
 /-- both algorithms agree -/
 theorem bsgs_eq_naive {α : Type} (O : SlotOps α) (n : Nat) (L : SlotLaws O n) (N1 : Nat) (hN : 0 < N1)
     (ks : List Int) (hr : ∀ k ∈ ks, 0 ≤ k ∧ k < (n : Int)) (hnd : ks.Nodup)
@@ -175,6 +255,78 @@ theorem evaluateSequential_two {α : Type} (O : SlotOps α) (lt0 lt1 : LinTrans.
     (h0 : evalOne O lt0 v = .val w) :
     evalSeq O [lt0, lt1] v = evalOne O lt1 w := by
   simp [evalSeq, h0]
+
+/-- one transformation built by `mkLT` evaluates to `Σ_d diag_d ⊙ rot_d` of its input -/
+theorem evalOne_mkLT {α : Type} (O : SlotOps α) (logCols : Nat) (L : SlotLaws O (2 ^ logCols))
+    (s : Nat × List Int × (Int → α)) (hr : ∀ k ∈ s.2.1, 0 ≤ k ∧ k < ((2 ^ logCols : Nat) : Int))
+    (hnd : s.2.1.Nodup) (v : α) :
+    evalOne O (mkLT O logCols s) v = .val (diagSum O s.2.1 s.2.2 v) := by
+  simp only [evalOne, mkLT]
+  by_cases h0 : s.1 = 0
+  · simp only [h0, if_true]
+    exact evalNaive_eq L s.2.1 hr hnd s.2.2 v
+  · simp only [h0, if_false]
+    exact evalBSGS_eq L s.1 (Nat.pos_of_ne_zero h0) s.2.1 hr s.2.2 v
+
+/-- **evaluateSequential_spec**: `EvaluateSequential` on ANY non-empty list of transformations (naive and
+    BSGS mixed) is their composition, first to last: `M_k(… M_1(M_0 v))` -/
+theorem evaluateSequential_spec {α : Type} (O : SlotOps α) (logCols : Nat) (L : SlotLaws O (2 ^ logCols))
+    (s0 : Nat × List Int × (Int → α)) (rest : List (Nat × List Int × (Int → α)))
+    (hr : ∀ s ∈ s0 :: rest, ∀ k ∈ s.2.1, 0 ≤ k ∧ k < ((2 ^ logCols : Nat) : Int))
+    (hnd : ∀ s ∈ s0 :: rest, s.2.1.Nodup) (v : α) :
+    evalSeq O ((s0 :: rest).map (mkLT O logCols)) v
+      = .val ((s0 :: rest).foldl (fun w s => diagSum O s.2.1 s.2.2 w) v) := by
+  simp only [List.map_cons, evalSeq, List.foldl_cons]
+  rw [evalOne_mkLT O logCols L s0 (hr s0 (by simp)) (hnd s0 (by simp)) v]
+  have hrest : ∀ (l : List (Nat × List Int × (Int → α))) (w : α),
+      (∀ s ∈ l, ∀ k ∈ s.2.1, 0 ≤ k ∧ k < ((2 ^ logCols : Nat) : Int)) → (∀ s ∈ l, s.2.1.Nodup) →
+      (l.map (mkLT O logCols)).foldl (fun (acc : EvalRes α) lt =>
+        match acc with
+        | .val w => evalOne O lt w
+        | r => r) (.val w) = .val (l.foldl (fun w s => diagSum O s.2.1 s.2.2 w) w) := by
+    intro l
+    induction l with
+    | nil => intro w _ _; rfl
+    | cons s l ih =>
+      intro w h1 h2
+      simp only [List.map_cons, List.foldl_cons]
+      rw [evalOne_mkLT O logCols L s (h1 s (by simp)) (h2 s (by simp)) w]
+      exact ih _ (fun x hx => h1 x (by simp [hx])) (fun x hx => h2 x (by simp [hx]))
+  exact hrest rest _ (fun s hs => hr s (by simp [hs])) (fun s hs => hnd s (by simp [hs]))
+
+/-- the empty list: `linearTransformations[:1]` of an empty slice panics -/
+example {α : Type} (O : SlotOps α) (v : α) : (match evalSeq O [] v with | .panic => true | _ => false) = true := rfl
+
+/-- **evaluateSequential_meta**: level and scale of `EvaluateSequential` (bgv, exact scales modulo the
+    prime `t`) in closed form: `k` transformations allocated at levels `≥` the input's, `k ≤` input level,
+    the consumed primes units modulo `t`: output level = input level `− k`, output scale
+    `= s_ct · Π s_i · Π_{j<k} q_{level-j}⁻¹` in `ZMod t` -/
+theorem evaluateSequential_meta (t : Nat) [Fact t.Prime] (h64 : t < 2 ^ 64) (qmodt : List Nat)
+    (ctLevel ctScale : Nat) (ls0 : Nat × Nat) (rest : List (Nat × Nat))
+    (hlv : ∀ ls ∈ ls0 :: rest, ctLevel ≤ ls.1) (hk : (ls0 :: rest).length ≤ ctLevel)
+    (hq : ∀ l, 1 ≤ l → l ≤ ctLevel → ((qmodt.getD l 0 : Nat) : ZMod t) ≠ 0) :
+    ∃ sc, seqMeta t qmodt ctLevel ctScale (ls0 :: rest) = some (ctLevel - (ls0 :: rest).length, sc) ∧
+      ((sc : Nat) : ZMod t) = (ctScale : ZMod t) * (((ls0 :: rest).map fun ls => ((ls.2 : Nat) : ZMod t)).prod) *
+        ((List.range (ls0 :: rest).length).map fun j => (((qmodt.getD (ctLevel - j) 0 : Nat) : ZMod t))⁻¹).prod := by
+  obtain ⟨sc, h1, h2⟩ := seqFold_spec t h64 qmodt (ls0 :: rest) ctLevel ctScale hlv hk hq
+  refine ⟨sc, ?_, h2⟩
+  rw [← h1, seqMeta_cons]
+  simp only [List.foldl_cons, seqStep]
+  have hl0 : ctLevel ≤ ls0.1 := hlv ls0 (by simp)
+  have e1 : (outMeta t ls0.1 ctLevel ls0.1 ctScale ls0.2).1 = (outMeta t ctLevel ctLevel ls0.1 ctScale ls0.2).1 := by
+    simp only [outMeta]; omega
+  have e2 : (outMeta t ls0.1 ctLevel ls0.1 ctScale ls0.2).2 = (outMeta t ctLevel ctLevel ls0.1 ctScale ls0.2).2 := rfl
+  rw [e1, e2]
+
+/-- too few levels: with more transformations than levels the sequence stops on a failing `Rescale` -/
+theorem evaluateSequential_meta_too_few (t : Nat) (qmodt : List Nat) (ctScale : Nat) (ls0 : Nat × Nat) :
+    seqMeta t qmodt 0 ctScale [ls0] = none := by
+  simp [seqMeta, outMeta]
+
+/-- non-vacuity: `t = 65537`, two transformations from level 3 -/
+example : Nat.Prime 65537 ∧ (∀ ls ∈ [((3 : Nat), (5 : Nat)), (4, 7)], 3 ≤ ls.1) ∧ ([((3 : Nat), (5 : Nat)), (4, 7)]).length ≤ 3 ∧
+    seqMeta 65537 [705, 16321, 16577, 15553] 3 9 [(3, 5), (4, 7)] = some (1, 17311) := by
+  refine ⟨by norm_num, by decide, by decide, by decide +kernel⟩
 
 /-! ## Galois keys -/
 
@@ -234,6 +386,40 @@ theorem lazy_accumulation_no_wrap (qs : List Nat) (hqs : ∀ x ∈ qs, x < 2 ^ 6
     let r := accRun q (halved (overflowMargin qs)) ps
     (∀ raw ∈ r.1, raw < W) ∧ r.2 < q ∧ r.2 % q = ps.sum % q :=
   Lattigo.Model.LinTrans.Lazy.lazy_accumulation_no_wrap qs hqs q qinv hq hm xys hxy hne
+
+/-- **lazy_accumulation_no_wrap_gen**: the same with the margin the REGENERATED `QiOverflowMargin`
+    (`Gen/Params.lean`, printed from core/rlwe/params.go on every run; `C19Gen.margin_floor_gen`: it is
+    `⌊(2^64-1)/max⌋`) at the top level of the chain, halved as `MultiplyByDiagMatrixBSGS` does — for every
+    chain of odd moduli in `(2, 2^61)` (every chain of primes `CheckModuli` admits) -/
+theorem lazy_accumulation_no_wrap_gen (qs : List Nat) (hlen : qs.length < 2 ^ 62) (hqs : ∀ x ∈ qs, x < 2 ^ 61)
+    (hodd : ∀ x ∈ qs, x % 2 = 1) (h2 : ∀ x ∈ qs, 2 < x) (q qinv : Nat) (hq : q ∈ qs)
+    (hm : MontConst q qinv) (xys : List (Nat × Nat)) (hxy : ∀ xy ∈ xys, xy.1 < q ∧ xy.2 < q) (hne : xys ≠ []) :
+    let ps := xys.map fun xy => MRedLazy xy.1 xy.2 q qinv
+    let r := accRun q (halved (i64toInt (Lattigo.Gen.Params.QiOverflowMargin qs (qs.length - 1)))) ps
+    (∀ raw ∈ r.1, raw < W) ∧ r.2 < q ∧ r.2 % q = ps.sum % q := by
+  have hmaxmem : qs ≠ [] → qs.foldl max 0 ∈ qs := by
+    intro hne'
+    have : ∀ (l : List Nat) (a : Nat), l.foldl max a = a ∨ l.foldl max a ∈ l := by
+      intro l
+      induction l with
+      | nil => intro a; left; rfl
+      | cons y ys ih =>
+        intro a
+        simp only [List.foldl_cons]
+        rcases ih (max a y) with h | h
+        · rcases Nat.le_total a y with hay | hay
+          · right; rw [h, Nat.max_eq_right hay]; simp
+          · left; rw [h, Nat.max_eq_left hay]
+        · right; exact List.mem_cons_of_mem _ h
+    rcases this qs 0 with h | h
+    · -- the maximum is 0: impossible, every modulus is > 2
+      obtain ⟨x, hx⟩ := List.exists_mem_of_ne_nil qs hne'
+      have := le_foldl_max qs 0 x (Or.inr hx)
+      have := h2 x hx
+      omega
+    · exact h
+  rw [Lattigo.Props.C12Gen.overflowMargin_gen qs hlen (fun h => hodd _ (hmaxmem h)) (fun h => h2 _ (hmaxmem h))]
+  exact Lattigo.Model.LinTrans.Lazy.lazy_accumulation_no_wrap qs hqs q qinv hq hm xys hxy hne
 
 /-- non-vacuity: a chain of a 60-bit and a 61-bit modulus; the Montgomery constant of the latter -/
 example : (∀ x ∈ [1152921504606846883, 2305843009213693951], x < 2 ^ 61) ∧
@@ -316,6 +502,13 @@ example : diagAt [((5 : Int), (1 : Int))] (-3) 8 = some 1 := by decide
 #print axioms meta_spec
 #print axioms at_spec
 #print axioms lazy_accumulation_no_wrap
+#print axioms lazy_accumulation_no_wrap_gen
+#print axioms lintrans_naive_spec
+#print axioms lintrans_spec_allocated
+#print axioms evalOne_mkLT
+#print axioms evaluateSequential_spec
+#print axioms evaluateSequential_meta
+#print axioms evaluateSequential_meta_too_few
 #print axioms lazy_accumulation_no_wrap_general
 #print axioms mredlazy_reduced_bound
 #print axioms lazy_2q_bound_insufficient
